@@ -9,9 +9,14 @@ package kubeeventsmanager
 // C09 (type-state link): what applyFilter stores as FilterResult is what ObjectAndFilterResult.Map
 // renders: for a jqFilter a Go map (the result of the built-in jq), for a filter function its value.
 // C08: the checksum is computed over the JSON rendering of the projection.
+// Ghost: the latest result of applyFilter (C08: what the cache must hold afterwards).
+//@ ghost lastFilterRes *kemtypes.ObjectAndFilterResult
+//@ ghost lastFilterErr error
 //@ func applyFilter
 //@   prop C09, C08
-//@   modifies nothing
+//@   modifies lastFilterRes, lastFilterErr
+//@   ghostset lastFilterRes := result0
+//@   ghostset lastFilterErr := result1
 //@   ensures [fresh]       result1 == nil ==> fresh(result0)
 //@   ensures [fields]      result1 == nil ==> result0 != nil && result0.Metadata.JqFilter == jqFilter && result0.Object == obj && result0.Metadata.ResourceId == resourceId(obj) && !result0.Metadata.RemoveObject
 //@   ensures [stored-type] result1 == nil && filterFn == nil && jqFilter != "" ==> dyntype(result0.FilterResult, map[string]interface{})
@@ -60,7 +65,7 @@ package kubeeventsmanager
 //@   requires [assumed:informer-delivers-unstructured-objects] IsObj(object) || (dyntype(object, cache.DeletedFinalStateUnknown) && IsObj(object.(cache.DeletedFinalStateUnknown).Obj))
 //@   requires forall(k, string, has(ei.cachedObjects, k) ==> ei.cachedObjects[k] != nil)
 //@   requires [event-kind] eventType == kemtypes.WatchEventAdded || eventType == kemtypes.WatchEventModified || eventType == kemtypes.WatchEventDeleted
-//@   modifies mapof(ei.cachedObjects), fields(ei.cachedObjectsInfo), fields(ei.cachedObjectsIncrement), ei.eventBuf, elems(ei.eventBuf), nPut, lastPut
+//@   modifies mapof(ei.cachedObjects), fields(ei.cachedObjectsInfo), fields(ei.cachedObjectsIncrement), ei.eventBuf, elems(ei.eventBuf), nPut, lastPut, lastFilterRes, lastFilterErr
 //@   let o := ite(dyntype(object, cache.DeletedFinalStateUnknown), object.(cache.DeletedFinalStateUnknown).Obj, object).(*unstructured.Unstructured)
 //@   let rid := resourceId(ite(dyntype(object, cache.DeletedFinalStateUnknown), object.(cache.DeletedFinalStateUnknown).Obj, object).(*unstructured.Unstructured))
 //@   let wasCached := old(has(ei.cachedObjects, rid))
@@ -70,6 +75,8 @@ package kubeeventsmanager
 //@   ensures [stopped]         old(ei.stopped) ==> nFired == 0 && has(ei.cachedObjects, rid) == wasCached
 //@   ensures [others-kept]     forall(k, string, k != rid ==> has(ei.cachedObjects, k) == old(has(ei.cachedObjects, k)) && ei.cachedObjects[k] == old(ei.cachedObjects[k]))
 //@   ensures [not-listed]      !listed(ei.Monitor.EventTypes, eventType) ==> nFired == 0
+//@   ensures [cache-updated]   (eventType == kemtypes.WatchEventAdded || eventType == kemtypes.WatchEventModified) && !old(ei.stopped) && lastFilterErr == nil ==> has(ei.cachedObjects, rid) && ei.cachedObjects[rid] == lastFilterRes
+//@   ensures [cache-removed]   eventType == kemtypes.WatchEventDeleted && !old(ei.stopped) && lastFilterErr == nil ==> !has(ei.cachedObjects, rid)
 //@   ensures [unchanged-skipped] (eventType == kemtypes.WatchEventAdded || eventType == kemtypes.WatchEventModified) && wasCached && has(ei.cachedObjects, rid)
 //@        && ei.cachedObjects[rid].Metadata.Checksum == oldSum && ei.cachedObjects[rid] != old(ei.cachedObjects[rid]) ==> nFired == 0
 //@   ensures [changed-fires]   (eventType == kemtypes.WatchEventAdded || eventType == kemtypes.WatchEventModified) && listed(ei.Monitor.EventTypes, eventType) && has(ei.cachedObjects, rid)
@@ -86,21 +93,21 @@ package kubeeventsmanager
 //@   requires ei.Monitor != nil && ei.cachedObjects != nil && ei.cachedObjectsInfo != nil && ei.cachedObjectsIncrement != nil
 //@   requires [assumed:informer-delivers-unstructured-objects] IsObj(obj) || (dyntype(obj, cache.DeletedFinalStateUnknown) && IsObj(obj.(cache.DeletedFinalStateUnknown).Obj))
 //@   requires forall(k, string, has(ei.cachedObjects, k) ==> ei.cachedObjects[k] != nil)
-//@   modifies mapof(ei.cachedObjects), fields(ei.cachedObjectsInfo), fields(ei.cachedObjectsIncrement), ei.eventBuf, elems(ei.eventBuf), nPut, lastPut
+//@   modifies mapof(ei.cachedObjects), fields(ei.cachedObjectsInfo), fields(ei.cachedObjectsIncrement), ei.eventBuf, elems(ei.eventBuf), nPut, lastPut, lastFilterRes, lastFilterErr
 //@   ensures [kind] nPut > old(nPut) ==> lastPut.WatchEvents[0] == kemtypes.WatchEventAdded
 //@ func (*resourceInformer).OnUpdate
 //@   prop C08
 //@   requires ei.Monitor != nil && ei.cachedObjects != nil && ei.cachedObjectsInfo != nil && ei.cachedObjectsIncrement != nil
 //@   requires [assumed:informer-delivers-unstructured-objects] IsObj(newObj) || (dyntype(newObj, cache.DeletedFinalStateUnknown) && IsObj(newObj.(cache.DeletedFinalStateUnknown).Obj))
 //@   requires forall(k, string, has(ei.cachedObjects, k) ==> ei.cachedObjects[k] != nil)
-//@   modifies mapof(ei.cachedObjects), fields(ei.cachedObjectsInfo), fields(ei.cachedObjectsIncrement), ei.eventBuf, elems(ei.eventBuf), nPut, lastPut
+//@   modifies mapof(ei.cachedObjects), fields(ei.cachedObjectsInfo), fields(ei.cachedObjectsIncrement), ei.eventBuf, elems(ei.eventBuf), nPut, lastPut, lastFilterRes, lastFilterErr
 //@   ensures [kind] nPut > old(nPut) ==> lastPut.WatchEvents[0] == kemtypes.WatchEventModified
 //@ func (*resourceInformer).OnDelete
 //@   prop C08
 //@   requires ei.Monitor != nil && ei.cachedObjects != nil && ei.cachedObjectsInfo != nil && ei.cachedObjectsIncrement != nil
 //@   requires [assumed:informer-delivers-unstructured-objects] IsObj(obj) || (dyntype(obj, cache.DeletedFinalStateUnknown) && IsObj(obj.(cache.DeletedFinalStateUnknown).Obj))
 //@   requires forall(k, string, has(ei.cachedObjects, k) ==> ei.cachedObjects[k] != nil)
-//@   modifies mapof(ei.cachedObjects), fields(ei.cachedObjectsInfo), fields(ei.cachedObjectsIncrement), ei.eventBuf, elems(ei.eventBuf), nPut, lastPut
+//@   modifies mapof(ei.cachedObjects), fields(ei.cachedObjectsInfo), fields(ei.cachedObjectsIncrement), ei.eventBuf, elems(ei.eventBuf), nPut, lastPut, lastFilterRes, lastFilterErr
 //@   ensures [kind] nPut > old(nPut) ==> lastPut.WatchEvents[0] == kemtypes.WatchEventDeleted
 
 // C08: executeHookOnEvent absent = all three watch events; otherwise exactly the given ones.
